@@ -224,14 +224,18 @@ fn region_of(parsed: &Parsed, off: usize) -> &'static str {
 }
 
 /// universal oracle: no panic, terminates, `Ok(None)` is sticky
-fn universal(r: &ReadRun, what: &str, out: &mut Outcome) -> bool {
+fn universal(r: &ReadRun, what: &str, counts_genuine: bool, out: &mut Outcome) -> bool {
 	if let Some(p) = &r.panicked {
 		out.fail(format!("C17:panic:{}", panic_site(p)), format!("{what}: {p}"));
 		return false;
 	}
 	if r.call_budget_exhausted {
-		out.fail("C17:endless-stream", format!("{what}: call budget exhausted, shape {}", r.shape_class()));
-		return false;
+		if counts_genuine {
+			out.fail("C17:endless-stream", format!("{what}: call budget exhausted, shape {}", r.shape_class()));
+			return false;
+		}
+		// a corrupted count / size may legitimately declare more objects than were written
+		out.count("corrupted_file_declares_more_objects_than_budget", 1);
 	}
 	if let Some(st) = &r.source {
 		if st.budget_exhausted {
@@ -472,6 +476,9 @@ impl Prop for C17 {
 			}
 			let r = container::read_file(&damaged, &env, &schema, &case.reader, &faults, budget);
 			out.evals += 1;
+			if std::env::var("VERIF_DEBUG").is_ok() {
+				eprintln!("case {:?}: shape {} calls {} source {:?} file_len {} items {:?}", case, r.shape(), r.calls, r.source.as_ref().map(|s| (s.calls, s.fill_calls, s.read_calls, s.refills)), damaged.len(), r.items.iter().take(4).collect::<Vec<_>>());
+			}
 			if let Some(st) = &r.source {
 				out.steps += st.calls;
 				digest.u64(st.digest);
@@ -495,7 +502,9 @@ impl Prop for C17 {
 			sig.str(fkind).str(region).u64(parsed.codec.idx()).u64(case.reader.class()).str(&r.shape_class());
 			out.sig(sig);
 			let what = format!("{:?} via {}", case.fault, case.reader.label());
-			if !universal(&r, &what, &mut out) {
+			// truncation, sync damage and I/O errors leave every count that is read genuine
+			let counts_genuine = matches!(case.fault, Fault::Truncate { .. } | Fault::Sync { .. } | Fault::Io { .. } | Fault::SnappyCrc { .. });
+			if !universal(&r, &what, counts_genuine, &mut out) {
 				break;
 			}
 			let (before, errs, after_vals) = split(&r);
